@@ -241,6 +241,14 @@ def gen_pauli_op(rng, nq, diagonal):
     while len(labels) < rng.randint(1, 4):
         labels.add("".join(rng.choice(alphabet) for _ in range(nq)))
     labels = sorted(labels)
+    if rng.random() < 0.3:
+        # an un-simplified sum (op1 + op2): the same Pauli string twice, each with its own coefficient
+        labels.append(rng.choice(labels))
+        coeffs = [rng.randint(-6, 6) / 2 or 1.0 for _ in labels]
+        first = labels.index(labels[-1])
+        if coeffs[first] + coeffs[-1] == 0:
+            coeffs[-1] = coeffs[first] / 2  # the zero operator is rejected by qiskit itself ("Empty observable")
+        return SparsePauliOp(labels, coeffs)
     coeffs = [rng.randint(-6, 6) / 2 or 1.0 for _ in labels]
     return SparsePauliOp(labels, coeffs)
 
@@ -375,6 +383,17 @@ def op_terms(op, n):
     for label, c in zip(op.paulis.to_labels(), op.coeffs):
         out.append([rat_str(F(float(np.real(c)))), [label[n - 1 - q] for q in range(n)]])
     return sorted(out)
+
+
+def merge_terms(terms):
+    """terms with the same Pauli string summed (an observables array is a mapping label -> coefficient, so the implementation
+    side always arrives merged; the model relabels term by term)"""
+    from common import rat_str
+
+    acc = {}
+    for c, ps in terms:
+        acc[tuple(ps)] = acc.get(tuple(ps), F(0)) + F(c)
+    return sorted([rat_str(c), list(ps)] for ps, c in acc.items())
 
 
 def obs_terms(obs_array, n):
@@ -591,7 +610,7 @@ def one_case(ctx, rng, kind, stack, classical, tag, second_round=None):
                     ini = [int(x) for x in lay.initial_index_layout(filter_ancillas=True)]
                     ctx.dist["layout:" + ("identity" if final == list(range(nq)) and m == nq else "final=initial" if final == ini else "routed(final!=initial)")] += 1
                 r = drv.ask({"op": "pipeline.relayout", "terms": op_terms(op, nq), "layout": final, "m": m})
-                ctx.compare("pipeline.relayout (observable submitted with the transpiled circuit)", inp, obs_terms(pub.observables, m), sorted(r.get("terms", [])))
+                ctx.compare("pipeline.relayout (observable submitted with the transpiled circuit)", inp, merge_terms(obs_terms(pub.observables, m)), merge_terms(r.get("terms", [])))
                 pid = float(np.asarray(pub.parameter_values.as_array()).ravel()[-1])
                 src = next(((qc, p) for qc, p in flat if abs(p[-1] - pid) < 1e-9), None)
                 if src is None:
